@@ -16,9 +16,10 @@ for f in ('patch.diff', 'demo.py', 'notes.md'):
 env = dict(os.environ, PYTHONPATH=wt, PYTHONHASHSEED='0'); env.pop('NREL_HIVE_VERIF', None)
 # demo with the change (worktree has it applied), then without
 rc_with, o1 = sh(f'/venv/bin/python -W ignore _seed/demo.py', cwd=wt, env=env)
-sh('git stash -q -- nrel', cwd=wt)
+# (never `git stash`: the stash is shared between all worktrees of a repository)
+sh('git diff -- nrel > _seed/_current.diff && git checkout -- nrel', cwd=wt)
 rc_without, o2 = sh(f'/venv/bin/python -W ignore _seed/demo.py', cwd=wt, env=env)
-sh('git stash pop -q', cwd=wt)
+sh('git apply _seed/_current.diff', cwd=wt)
 # suite with the change
 b = json.load(open('/root/.vp/BASELINE.json'))
 xml = tempfile.mktemp(suffix='.xml', dir='/var/tmp')
